@@ -77,13 +77,7 @@ Fixpoint ltrim_ws (s : text) : text :=
   end.
 Definition rtrim_ws (s : text) : text := rev (ltrim_ws (rev s)).
 Definition trim_nl (s : text) : text := rtrim_ws (ltrim_ws s).
-Definition div_open : text := Eval vm_compute in T "<div class=""mermaid"">".
-Definition div_close : text := Eval vm_compute in T "</div".
-Definition script_open : text := Eval vm_compute in T "<script>".
-Definition script_close : text := Eval vm_compute in T "</script".
 Definition parse_call_end : text := Eval vm_compute in T ");".
-
-Definition ends_with (suffix s : text) : bool := starts_with (rev suffix) (rev s).
 
 (* kind 0: Mermaid document and the source it must show; kind 1: DHTMLX document and its JSON;
    kind 2: _repr_html_() and to_html() *)
